@@ -174,7 +174,9 @@ fn run_cli(ctx: &Ctx, dir: &Path, case: &CliCase) -> Result<CliRun, String> {
         }
     }
     if let Some(o) = &case.output {
-        run.outfile = std::fs::read(dir.join(o)).ok();
+        if !o.starts_with("/dev/") {
+            run.outfile = std::fs::read(dir.join(o)).ok();
+        }
     }
     if let Ok(t) = std::fs::read_to_string(&log) {
         for l in t.lines() {
@@ -248,14 +250,19 @@ fn judge(case: &CliCase, run: &CliRun, refo: &Outcome, reflog: &[crate::job::Log
         hard.clear();
     }
     let stdin_invalid = case.entry.is_none() && case.stdin.as_ref().map_or(false, |s| std::str::from_utf8(s).is_err());
+    // OUTPUT may name something that is not a regular file: /dev/stdout (the CSS then arrives on
+    // stdout after all) or /dev/null (only exit status and stderr can be observed)
+    let to_dev_stdout = case.output.as_deref() == Some("/dev/stdout");
+    let discarded = case.output.as_deref() == Some("/dev/null");
     let target: &[u8] = match &case.output {
+        Some(_) if to_dev_stdout => &run.stdout,
         Some(_) => run.outfile.as_deref().unwrap_or(&[]),
         None => &run.stdout,
     };
     let ctxs = |what: &str| format!("{}\nargv={:?} plan={:?}\nexit={:?} signal={:?}\nstdout={:?}\nstderr={:?}\noutfile={:?}\nreference={}", what, case.argv, case.plan, run.exit, run.signal, lossy(&run.stdout), lossy(&run.stderr), run.outfile.as_ref().map(|b| lossy(b)), refo.brief());
     let exit_ok = run.exit == Some(0);
     // an output path in a directory that does not exist can only end in an I/O error
-    let out_unwritable = case.output.as_ref().map_or(false, |o| o.contains('/') && !case.files.iter().any(|(p, _)| p.starts_with(&o[..o.rfind('/').unwrap() + 1])));
+    let out_unwritable = case.output.as_ref().map_or(false, |o| o.contains('/') && !o.starts_with("/dev/") && !case.files.iter().any(|(p, _)| p.starts_with(&o[..o.rfind('/').unwrap() + 1])));
     if out_unwritable {
         if exit_ok || run.stderr.is_empty() || !run.stdout.is_empty() {
             return Some(("unwritable-output".into(), ctxs("the output file cannot be created (its directory does not exist): expected a non-zero exit, a message on stderr and nothing on stdout")));
@@ -273,10 +280,10 @@ fn judge(case: &CliCase, run: &CliRun, refo: &Outcome, reflog: &[crate::job::Log
                 if !exit_ok {
                     return Some(("exit-status".into(), ctxs("library compiles this input but the binary did not exit 0")));
                 }
-                if target != css.as_bytes() {
+                if !discarded && target != css.as_bytes() {
                     return Some(("css-mismatch".into(), ctxs("the CSS written by the binary differs from what the library returns for the same input and options")));
                 }
-                if case.output.is_some() && !run.stdout.is_empty() {
+                if case.output.is_some() && !to_dev_stdout && !run.stdout.is_empty() {
                     return Some(("stdout-with-output-file".into(), ctxs("an output file was given but the binary wrote to stdout")));
                 }
                 let se = String::from_utf8_lossy(&run.stderr).into_owned();
@@ -527,10 +534,16 @@ fn gen_case(rng: &mut Rng, ctx: &Ctx, pools: &Pools) -> CliCase {
     }
     let mut output = None;
     if rng.chance(0.35) && !use_stdin {
-        let o = if rng.chance(0.06) { "no-such-dir-for-output/out.css".to_string() } else { "out.css".to_string() };
+        let o = match rng.below(100) {
+            0..=5 => "no-such-dir-for-output/out.css".to_string(),
+            // not a regular file: a pipe reached through /dev/stdout, the null device
+            6..=10 => "/dev/stdout".to_string(),
+            11..=14 => "/dev/null".to_string(),
+            _ => "out.css".to_string(),
+        };
         argv.push(o.clone());
         // an older, longer output file may already be there: nothing of it may survive
-        if rng.chance(0.35) {
+        if rng.chance(0.35) && !o.starts_with("/dev/") {
             let mut old = b"/* stale output of an earlier run */\n".to_vec();
             for i in 0..rng.range(10, 400) {
                 old.extend_from_slice(format!(".stale-{} {{ left: over; }}\n", i).as_bytes());
@@ -772,7 +785,7 @@ impl Engine for Cli {
         out
     }
     fn rule(&self) -> String {
-        "seeded scenarios: entry text = corpus item (valid, invalid, or native indented / plain CSS) optionally wrapped with @import from -I directories (same-named file in two load paths), @warn/@debug, non-ASCII content, trailing @error or syntax error; argv = seeded spellings of --style/-s, -q/--quiet, --no-unicode, --no-charset, -I/--load-path x {file argument, --stdin} x {stdout, output file}; the Options the flags should produce are generated with the argv. Per scenario the fault position is enumerated from the shim log of the fault-free run: every read/write/open on {stdin, stdout, first stderr writes, entry file, output file} x {EINTR, short transfer, and the hard errnos applicable to that call}, plus EAGAIN on stdout (at once, and after a short write). Non-trivial = fault-free scenarios plus runs whose planned fault actually fired (per shim log); distinct by full case.".into()
+        "seeded scenarios: entry text = corpus item (valid, invalid, or native indented / plain CSS) optionally wrapped with @import from -I directories (same-named file in two load paths), @warn/@debug, non-ASCII content, trailing @error or syntax error; argv = seeded spellings of --style/-s, -q/--quiet, --no-unicode, --no-charset, -I/--load-path x {file argument, --stdin} x {stdout, output file, /dev/stdout or /dev/null as output file}; the Options the flags should produce are generated with the argv. Per scenario the fault position is enumerated from the shim log of the fault-free run: every read/write/open on {stdin, stdout, first stderr writes, entry file, output file} x {EINTR, short transfer, and the hard errnos applicable to that call}, plus EAGAIN on stdout (at once, and after a short write). Non-trivial = fault-free scenarios plus runs whose planned fault actually fired (per shim log); distinct by full case.".into()
     }
     fn assumptions(&self) -> Vec<String> {
         vec![
